@@ -7,6 +7,7 @@ package main
 
 import (
 	"fmt"
+	"go/constant"
 	"go/token"
 	"go/types"
 	"sort"
@@ -630,7 +631,15 @@ func (e *caseEval) argCases(vals []ssa.Value, extra map[string]bool) []vcase {
 // branch(), path(), isRoot(), isLastOfHierarchy(), hasChild(); the colouriser; constructors).
 func inlinable(f *ssa.Function) bool {
 	if recvTypeName(f) == "Node" || recvTypeName(f) == "WalkerNode" {
-		return false
+		// the node vocabulary the terms are stated in is kept opaque; other (new) node helpers are expanded
+		switch fname(f) {
+		case "branch", "path", "isRoot", "isLastOfHierarchy", "hasChild", "isDirectlyUnder", "findChildByText", "validatePath",
+			"Name", "Branch", "Row", "Level", "Path", "HasChild", "Add", "addChild", "setParent", "setBranch", "setPath", "clean":
+			return false
+		}
+		if recvTypeName(f) == "WalkerNode" && (f.Object() == nil || f.Object().Exported()) {
+			return false
+		}
 	}
 	switch fname(f) {
 	case "colorize", "summary", "spreadBranch", "isFile", "current", "next":
@@ -664,3 +673,156 @@ func involvesPhi(v ssa.Value, d int) bool {
 	}
 	return false
 }
+
+// ---------------------------------------------------------------------------------------------
+// write sequences: what a function writes, piece by piece, to one sink before it recurses into the children
+
+// sinkWrite: the string-valued operands an instruction writes to a sink (an io.Writer handed in, a strings.Builder /
+// bytes.Buffer / bufio.Writer), in order; nil if the instruction is not such a write.  Module helpers whose string
+// parameter flows into a sink write (writeOutput(w, s)) count as writes of their argument.
+func sinkWrite(p *Prog, in ssa.Instruction, depth int) []ssa.Value {
+	c, ok := in.(*ssa.Call)
+	if !ok {
+		return nil
+	}
+	com := c.Common()
+	name := calleeFullName(com)
+	switch {
+	case name == "fmt.Fprint" || name == "fmt.Fprintln":
+		if len(com.Args) == 2 {
+			if els, ok := variadicElems(com.Args[1]); ok {
+				var out []ssa.Value
+				for _, e := range els {
+					out = append(out, stripIface(e))
+				}
+				if name == "fmt.Fprintln" {
+					out = append(out, ssa.NewConst(constantString("\n"), types.Typ[types.String]))
+				}
+				return out
+			}
+		}
+	case name == "io.WriteString":
+		if len(com.Args) == 2 {
+			return []ssa.Value{com.Args[1]}
+		}
+	case strings.HasSuffix(name, ").WriteString") && (strings.HasPrefix(name, "(*strings.Builder)") || strings.HasPrefix(name, "(*bytes.Buffer)") || strings.HasPrefix(name, "(*bufio.Writer)")):
+		return []ssa.Value{com.Args[1]}
+	case strings.HasSuffix(name, ").WriteByte") || strings.HasSuffix(name, ").WriteRune"):
+		if strings.HasPrefix(name, "(*strings.Builder)") || strings.HasPrefix(name, "(*bytes.Buffer)") || strings.HasPrefix(name, "(*bufio.Writer)") {
+			if k, ok := constInt(stripConv(com.Args[1])); ok && k > 0 && k < 128 {
+				return []ssa.Value{ssa.NewConst(constantString(string(rune(k))), types.Typ[types.String])}
+			}
+		}
+	case com.IsInvoke() && methodName(com.Method) == "Write" && len(com.Args) == 1:
+		// w.Write([]byte(s))
+		if cv, ok := com.Args[0].(*ssa.Convert); ok {
+			if b, ok := cv.X.Type().Underlying().(*types.Basic); ok && b.Info()&types.IsString != 0 {
+				return []ssa.Value{cv.X}
+			}
+		}
+	}
+	if f := com.StaticCallee(); f != nil && p.InModule(f) && depth < 2 && f.Blocks != nil && !callsItself(f) {
+		// a helper that writes one of its string parameters
+		for i, prm := range f.Params {
+			if b, ok := prm.Type().Underlying().(*types.Basic); !ok || b.Info()&types.IsString == 0 {
+				continue
+			}
+			writes := false
+			allInstrs(f, func(in2 ssa.Instruction) {
+				for _, v := range sinkWrite(p, in2, depth+1) {
+					if sameVar(v, prm) {
+						writes = true
+					}
+				}
+			})
+			if writes && i < len(com.Args) {
+				return []ssa.Value{com.Args[i]}
+			}
+		}
+	}
+	return nil
+}
+
+func stripIface(v ssa.Value) ssa.Value {
+	if mi, ok := v.(*ssa.MakeInterface); ok {
+		return mi.X
+	}
+	return v
+}
+
+// writeSequences enumerates the acyclic paths of fn from its entry up to (not into) the first loop and returns, per
+// path, the canonical conditions and the concatenation of what is written to sinks along it.  ok is false when the
+// function has no such write.
+func writeSequences(p *Prog, fn *ssa.Function, node ssa.Value) ([]vcase, bool) {
+	ev := newCaseEval(p, node)
+	var out []vcase
+	any := false
+	loopHeads := map[*ssa.BasicBlock]bool{}
+	for _, b := range fn.Blocks {
+		for _, s := range b.Succs {
+			if s.Dominates(b) {
+				loopHeads[s] = true
+			}
+		}
+	}
+	type frame struct {
+		conds map[string]bool
+		parts [][]vcase
+	}
+	var walk func(b *ssa.BasicBlock, fr frame, depth int)
+	emit := func(fr frame) {
+		if len(fr.parts) == 0 {
+			return
+		}
+		cs := ev.cross(fr.parts, func(ts []string) string { return "cat(" + strings.Join(mergeLiterals(ts), ",") + ")" })
+		for _, c := range cs {
+			if m, ok := mergeConds(fr.conds, c.conds); ok {
+				out = append(out, vcase{m, c.term})
+			}
+		}
+	}
+	walk = func(b *ssa.BasicBlock, fr frame, depth int) {
+		if depth > 24 || len(out) > 64 {
+			return
+		}
+		if loopHeads[b] {
+			emit(fr)
+			return
+		}
+		for _, in := range b.Instrs {
+			if vs := sinkWrite(p, in, 0); vs != nil {
+				any = true
+				for _, v := range vs {
+					fr.parts = append(append([][]vcase{}, fr.parts...), ev.cases(v, 0))
+				}
+			}
+		}
+		last := b.Instrs[len(b.Instrs)-1]
+		switch x := last.(type) {
+		case *ssa.If:
+			c, pol := flattenCond(x.Cond, true)
+			for i, s := range b.Succs {
+				nf := frame{conds: map[string]bool{}, parts: fr.parts}
+				for k, v := range fr.conds {
+					nf.conds[k] = v
+				}
+				a, ap := ev.atomPol(c, pol == (i == 0))
+				if old, has := nf.conds[a]; has && old != ap {
+					continue
+				}
+				nf.conds[a] = ap
+				walk(s, nf, depth+1)
+			}
+		case *ssa.Return:
+			emit(fr)
+		default:
+			for _, s := range b.Succs {
+				walk(s, fr, depth+1)
+			}
+		}
+	}
+	walk(fn.Blocks[0], frame{conds: map[string]bool{}}, 0)
+	return out, any
+}
+
+func constantString(s string) constant.Value { return constant.MakeString(s) }
